@@ -115,7 +115,16 @@ fn schema() -> (Schema, Fields) {
     let val = sb.add_i64_field("val", FAST);
     (sb.build(), Fields { id, tag, body, val })
 }
-fn body_of(id: u64) -> String { format!("w{} common b{}", id, id % 7) }
+/// Documents with an id >= BULK_BASE carry `bulk_tokens(id)` tokens that occur in no other document: a few dozen of
+/// them fill the 15 MB arena of an indexing thread, so that the memory budget cuts the uncommitted work into
+/// several segments while later documents are still queued in the pipeline.
+const BULK_BASE: u64 = 1_000_000;
+fn bulk_tokens(id: u64) -> u64 { if id >= BULK_BASE { 900 + (id * 7919) % 1300 } else { 0 } }
+fn body_of(id: u64) -> String {
+    let mut b = format!("w{} common b{}", id, id % 7);
+    for k in 0..bulk_tokens(id) { b.push_str(&format!(" d{}t{}", id, k)); }
+    b
+}
 fn tdoc(f: &Fields, d: &Doc) -> TantivyDocument {
     let mut t = TantivyDocument::default();
     t.add_u64(f.id, d.id);
@@ -126,7 +135,7 @@ fn tdoc(f: &Fields, d: &Doc) -> TantivyDocument {
 }
 
 #[derive(Clone, Debug)]
-struct Obs { ret: u64, meta_op: u64, acc: u64, segs: Option<Vec<Vec<u64>>>, content: Option<Vec<Doc>>, payload: Option<String> }
+struct Obs { ret: u64, meta_op: u64, acc: u64, segs: Option<Vec<Vec<u64>>>, seg_all: Option<Vec<Vec<u64>>>, content: Option<Vec<Doc>>, payload: Option<String> }
 
 #[derive(Clone, Copy, Debug)]
 struct Config { threads: usize, log_merge: bool }
@@ -146,7 +155,7 @@ fn new_writer(index: &Index, cfg: Config) -> Result<IndexWriter, String> {
 }
 
 /// content of a freshly loaded searcher, read three ways; Err = the readings disagree
-fn read_back(index: &Index, f: &Fields) -> Result<(Vec<Vec<u64>>, Vec<Doc>), String> {
+fn read_back(index: &Index, f: &Fields) -> Result<(Vec<Vec<u64>>, Vec<Doc>, Vec<Vec<u64>>), String> {
     let reader = index.reader_builder().reload_policy(ReloadPolicy::Manual).try_into().map_err(|e| format!("reader: {e:?}"))?;
     let searcher = reader.searcher();
     // (3) one term query per tag
@@ -157,12 +166,14 @@ fn read_back(index: &Index, f: &Fields) -> Result<(Vec<Vec<u64>>, Vec<Doc>), Str
         for a in hits { tag_of.entry(a).or_default().push(t); }
     }
     let mut segs = vec![];
+    let mut seg_all: Vec<Vec<u64>> = vec![];     // every doc id of the segment, deleted ones included (fast field)
     let mut content = vec![];
     let mut seen = 0usize;
     for (ord, sr) in searcher.segment_readers().iter().enumerate() {
         let idc = sr.fast_fields().u64("id").map_err(|e| format!("id column: {e}"))?;
         let valc = sr.fast_fields().i64("val").map_err(|e| format!("val column: {e}"))?;
         let mut ids = vec![];
+        seg_all.push((0..sr.max_doc()).filter_map(|d| idc.first(d)).collect());
         for d in 0..sr.max_doc() {
             if sr.is_deleted(d) { continue; }
             let addr = DocAddress::new(ord as u32, d);
@@ -187,7 +198,8 @@ fn read_back(index: &Index, f: &Fields) -> Result<(Vec<Vec<u64>>, Vec<Doc>), Str
     if seen != tag_of.len() { return Err(format!("term queries return {} documents, segments hold {}", tag_of.len(), seen)); }
     if searcher.num_docs() as usize != seen { return Err(format!("num_docs {} != {}", searcher.num_docs(), seen)); }
     segs.sort();
-    Ok((segs, content))
+    seg_all.sort();
+    Ok((segs, content, seg_all))
 }
 
 fn del_query(f: &Fields, q: &Q) -> Box<dyn tantivy::query::Query> {
@@ -255,8 +267,8 @@ fn run_impl(steps: &[Step], cfg: Config) -> Result<(Vec<Obs>, Vec<(usize, Vec<Do
                 };
                 let meta = index.load_metas().map_err(|e| format!("load_metas: {e:?}"))?;
                 let acc = writer.as_ref().unwrap().commit_opstamp();
-                let (segs, content) = if is_commit { let (s, c) = read_back(&index, &f)?; (Some(s), Some(c)) } else { (None, None) };
-                obs.push(Obs { ret, meta_op: meta.opstamp, acc, segs, content, payload: meta.payload.clone() });
+                let (segs, content, seg_all) = if is_commit { let (s, c, a) = read_back(&index, &f)?; (Some(s), Some(c), Some(a)) } else { (None, None, None) };
+                obs.push(Obs { ret, meta_op: meta.opstamp, acc, segs, seg_all, content, payload: meta.payload.clone() });
             }
         }
     }
@@ -317,6 +329,34 @@ impl Gen {
         steps
     }
 }
+/// Histories whose uncommitted work overflows the memory budget: transactions of bulky documents (single adds and
+/// run() batches) with deletes in between, sized to `cuts` budget overflows per indexing thread and transaction.
+fn bulk_history(rng: &mut Rng, threads: usize, transactions: usize, with_restore: bool) -> Vec<Step> {
+    let mut g = Gen { next_id: BULK_BASE };
+    let mut steps = vec![];
+    for t in 0..transactions {
+        // ~28 000 distinct tokens fill one arena; aim at 1.4 .. 2.6 arenas per thread
+        let mut budget: i64 = (28_000 * threads as i64 * (14 + rng.below(13) as i64)) / 10;
+        while budget > 0 {
+            let r = rng.below(100);
+            if r < 70 {
+                let d = g.doc(rng); budget -= bulk_tokens(d.id) as i64; steps.push(Step::Op(Op::Add(d), false));
+            } else if r < 85 {
+                let n = 1 + rng.below(4) as usize;
+                let b: Vec<BOp> = (0..n).map(|_| if rng.chance(4, 5) { let d = g.doc(rng); budget -= bulk_tokens(d.id) as i64; BOp::Add(d) }
+                    else if rng.chance(1, 2) { BOp::Del(Q::Tag(rng.below(2))) } else { let i = BULK_BASE + rng.below(g.next_id - BULK_BASE + 1); BOp::Del(Q::IdRange(i, i)) }).collect();
+                steps.push(Step::Op(Op::Batch(b), false));
+            } else if r < 93 {
+                steps.push(Step::Op(Op::Del(Q::Tag(if rng.chance(2, 3) { rng.below(2) } else { rng.below(NTAGS) })), false));
+            } else if g.next_id > BULK_BASE {
+                let lo = BULK_BASE + rng.below(g.next_id - BULK_BASE); steps.push(Step::Op(Op::Del(Q::IdRange(lo, lo + rng.below(3))), false));
+            }
+        }
+        if with_restore && t + 1 < transactions && rng.chance(1, 2) { steps.push(Step::Op(if rng.chance(1, 2) { Op::Rollback } else { Op::Reopen }, rng.chance(1, 2))); } else { steps.push(Step::Op(Op::Commit(None), rng.chance(1, 3))); }
+    }
+    steps.push(Step::Op(Op::Commit(None), false));
+    steps
+}
 fn ops_of(steps: &[Step]) -> Vec<Op> { steps.iter().filter_map(|s| if let Step::Op(o, _) = s { Some(o.clone()) } else { None }).collect() }
 
 /// the predicate `spec_opstamps` of WriterObs.v, on this side (only to choose the kind of case; Coq decides)
@@ -332,6 +372,31 @@ fn opstamps_ok(h: &[Op], obs: &[Obs]) -> bool {
         }
     }
     true
+}
+
+/// sizes (documents, deleted ones included) of the segments created by each committed transaction, in creation
+/// order; None when they cannot be read off the searcher (a segment whose documents were all deleted is dropped)
+fn observed_cuts(h: &[Op], obs: &[Obs]) -> Option<Vec<Vec<usize>>> {
+    let mut cuts = vec![];
+    let mut tx_ids: Vec<u64> = vec![];
+    for (o, ob) in h.iter().zip(obs.iter()) {
+        match o {
+            Op::Add(d) => tx_ids.push(d.id),
+            Op::Batch(b) => for x in b { if let BOp::Add(d) = x { tx_ids.push(d.id); } },
+            Op::Commit(_) => {
+                let all = ob.seg_all.as_ref()?;
+                let lo = tx_ids.iter().min().copied();
+                let mut new: Vec<&Vec<u64>> = all.iter().filter(|s| match (s.iter().min(), lo) { (Some(m), Some(lo)) => *m >= lo, _ => false }).collect();
+                new.sort_by_key(|s| s.iter().min().copied());
+                if new.iter().map(|s| s.len()).sum::<usize>() != tx_ids.len() { if std::env::var("C02_DEBUG").is_ok() { eprintln!("cuts: tx docs {} segs {:?} all {:?}", tx_ids.len(), new.iter().map(|s| s.len()).collect::<Vec<_>>(), all.iter().map(|s| (s.iter().min().copied(), s.len())).collect::<Vec<_>>()); } return None; }
+                cuts.push(new.iter().map(|s| s.len()).collect());
+                tx_ids.clear();
+            }
+            Op::Del(_) => {}
+            _ => return None,
+        }
+    }
+    Some(cuts)
 }
 
 fn same_multiset(a: &[Doc], b: &[Doc]) -> bool {
@@ -382,6 +447,7 @@ fn emit_history(out: &mut CaseOut, rng: &mut Rng, ctx: &Ctx, steps: &[Step], cfg
         if let Op::Commit(p) = o {
             last_payload = p.map(|x| format!("p{}", x));
             let c = ob.content.clone().unwrap();
+            if label == "budget-cut" { out.count("budget_cut_segments_at_commits", ob.segs.as_ref().map(|s| s.len()).unwrap_or(0) as u64); out.count("budget_cut_commits", 1); }
             if !same_multiset(&c, &rp.committed) { content_ok = false; }
             commits.push((k, c));
         }
@@ -409,8 +475,11 @@ fn emit_history(out: &mut CaseOut, rng: &mut Rng, ctx: &Ctx, steps: &[Step], cfg
         if !rp.f2_class && rp.f021_class && merges {
             out.coq_case("known:F021", format!("F021_class {} && negb (spec_commits {} {})", hc, hc, commits_term), desc.clone(), nontrivial);
             out.count("histories_F021_hit", 1);
-        } else {
+        } else if rp.f2_class {
             out.coq_case("known:F2", format!("F2_class F1_FIXED {} && negb (spec_commits {} {})", hc, hc, commits_term), desc.clone(), nontrivial);
+        } else {
+            // outside every known class: a plain violation of the specification (Coq confirms and it becomes the replay)
+            out.coq_case("spec", format!("spec_commits {} {}", hc, commits_term), desc.clone(), nontrivial);
         }
     }
     out.spec_checked(payload_ok, json!({"what": "meta.payload is not the payload of the last commit", "case": desc}));
@@ -433,7 +502,23 @@ fn emit_history(out: &mut CaseOut, rng: &mut Rng, ctx: &Ctx, steps: &[Step], cfg
     }
     // ---- tie
     let deterministic = cfg.threads == 1 && !cfg.log_merge && !has_merge;
-    if deterministic && (expect_known.is_some() || (content_ok && !rp.f2_class)) {
+    if label == "budget-cut" {
+        // the opstamps depend on when the budget closed a segment: compare under the schedule inferred from the observation
+        let plain = h.iter().all(|o| matches!(o, Op::Add(_) | Op::Del(_) | Op::Batch(_) | Op::Commit(_)));
+        if deterministic && content_ok && plain {
+            if let Some(cuts) = observed_cuts(&h, &obs) {
+                let impl_trace = cf::list(&obs, |o| format!("({}, {}, {}, {})", o.ret, o.meta_op, o.acc, match &o.segs { Some(s) => cf::list(s, |x| cf::ns(x)), None => "[]".into() }));
+                let cuts_term = cf::list(&cuts, |c| cf::list(c, |n| cf::nat(*n)));
+                out.coq_case("tie", format!("tie_trace_cuts {} {} {}", hc, impl_trace, cuts_term), desc.clone(), nontrivial);
+                out.count("tie_traces_inferred_schedule", 1);
+                out.count("budget_cuts_in_tie_traces", cuts.iter().map(|c| c.len().saturating_sub(1) as u64).sum());
+            } else { out.count("budget_cut_segment_sizes_unobservable", 1); }
+        } else if content_ok && !rp.f2_class {
+            let sc = random_sched(rng, h.len(), cfg.threads);
+            out.coq_case("tie", format!("model_commits {} {} {} {}", cf::nat(cfg.threads), hc, sc, commits_term), desc.clone(), nontrivial);
+            out.count("tie_random_schedules", 1);
+        }
+    } else if deterministic && (expect_known.is_some() || (content_ok && !rp.f2_class)) {
         let impl_trace = cf::list(&obs, |o| format!("({}, {}, {}, {})", o.ret, o.meta_op, o.acc, match &o.segs { Some(s) => cf::list(s, |x| cf::ns(x)), None => "[]".into() }));
         out.coq_case("tie", format!("tie_trace 1%nat {} {}", hc, impl_trace), desc.clone(), nontrivial);
         out.count("tie_traces", 1);
@@ -531,6 +616,13 @@ fn main() {
         let allow_merge = i % 4 != 0;
         let steps = g.history(&mut rng, len, allow_delete_all, allow_merge);
         emit_history(&mut out, &mut rng, &ctx, &steps, cfg, "generated", None);
+    }
+    // ---------------- histories cut by the memory budget ----------------
+    let n_bulk = if thorough { 20 } else { 6 };
+    for i in 0..n_bulk {
+        let threads = match i % 6 { 3 => 2, _ => 1 };
+        let steps = bulk_history(&mut rng, threads, 2, i % 6 == 4);
+        emit_history(&mut out, &mut rng, &ctx, &steps, Config { threads, log_merge: false }, "budget-cut", None);
     }
     out.finish(json!({"f1_fixed_observed": f1_fixed}));
 }
